@@ -13,6 +13,16 @@
   (removed with the device in `_remove_mode_devices`), `turn` = the one-shot handler on `mode_<n>_started` that
   `ModeController._player_turn_ended` registers for a game mode that is still starting when the player's turn ends
   (`_stop_mode_started_at_turn_end`: it removes itself when the started event is handled and requests a stop);
+* config players (`mpf/core/config_player.py`): an entry of a mode's `light_player:` / `show_player:` / `coil_player:` … is a
+  `cfg` handler; *when* it is called is an input (`cfgPlay`) — also AFTER the handler has been removed, because the
+  dispatcher of a queue event (`EventManager._run_handlers_sequential`) works on a snapshot of the handler list taken before
+  it waited for a higher-priority handler; `config_play_callback` plays only `if mode.active`; what a play records under the
+  mode's context (light stack entry, show instance, enabled coil: registry `fx`) is cleared by the player's `mode_stop`
+  (`clear_context`), one of the mode's `stop_methods`, in `_stopped`;
+* mode devices own delay managers and periodic tasks (timer ticks and timed pauses, logic-block timeouts, sequence-shot
+  timeouts, shot delay switches, ball-save timers: registry `tm`); a device schedules (`addTm`), cancels (`remTm`) and
+  lets them elapse (`fireTm`) while it is loaded in its mode, i.e. between the accepted `start` (`_add_mode_devices`) and
+  the cleanup of the stop (`_remove_mode_devices` → `device_removed_from_mode`), which cancels whatever is pending;
 * user code of a mode (`addH`, `addSw`, `addDl`, a delay firing) may run at any time; a delayed control event of a mode
   device (`enable_events: {ev: 2s}` → `Mode._control_event_handler` → `self.delay.add(..., mode=self)`) is such an owned
   delay (`addDl` when the event arrives, `fireDl` when it elapses), whichever `DelayManager` the implementation used.
@@ -63,6 +73,11 @@ inductive Op
   | addDl (m id : Nat)
   | fireDl (m id : Nat)
   | turnEnd (m : Nat)        -- `_player_turn_ended` finds game mode m (auto_stop_on_ball_end) still starting
+  | cfgPlay (m id : Nat)     -- `config_play_callback` of an entry of mode m's config player `id` is called (ids < 100 record something under the context)
+  | cfgSub (m id : Nat) (on : Bool)  -- a conditional entry (`"{condition}":` = template subscription) of config player `id` is (re-)evaluated: played when true, removed when false
+  | addTm (m id : Nat)       -- a device of mode m schedules a delay on its own manager / a periodic task
+  | fireTm (m id : Nat)      -- such a delay elapses
+  | remTm (m id : Nat)       -- the device cancels it (`DelayManager.remove`, `clock.unschedule`; nothing happens when it is gone)
   deriving DecidableEq, Repr
 
 structure St where
@@ -72,6 +87,8 @@ structure St where
   bus : List Ent := []
   sw : List Ent := []
   dl : List Ent := []
+  fx : List Ent := []              -- what config players recorded under a mode's context
+  tm : List Ent := []              -- delays / periodic tasks owned by mode devices
   log : List (Nat × Ev) := []
 
 def upd (f : Nat → MState) (m : Nat) (x : MState) : Nat → MState := fun i => if i = m then x else f i
@@ -93,6 +110,12 @@ def mkEnts (owner : Nat) (cls : Cls) : Nat → List Ent
 
 def ownedBy (m : Nat) (e : Ent) : Bool := e.owner == m
 
+/-- the mode's config players are loaded (`stop_methods`): from the accepted `start` until `_stopped` -/
+def up (ms : MState) : Bool := ms.starting || ms.active
+
+/-- the mode's devices are loaded: from the accepted `start` until the cleanup of the stop has run -/
+def alive (ms : MState) : Bool := ms.starting || ms.active || ms.cleanupPending
+
 /-- `_finish_stop`: `_remove_mode_event_handlers`, `_remove_mode_switch_handlers`, `delay.clear()`, `_remove_mode_devices`
 (only once per stop) -/
 def cleanup (st : St) (m : Nat) : St :=
@@ -101,7 +124,8 @@ def cleanup (st : St) (m : Nat) : St :=
       modes := upd st.modes m { (st.modes m) with cleanupPending := false },
       bus := st.bus.filter (fun e => !(ownedBy m e && (e.cls == .own || e.cls == .dev))),
       sw := st.sw.filter (fun e => !ownedBy m e),
-      dl := st.dl.filter (fun e => !ownedBy m e) }
+      dl := st.dl.filter (fun e => !ownedBy m e),
+      tm := st.tm.filter (fun e => !ownedBy m e) }
   else st
 
 /-- the body of an accepted `Mode.start` -/
@@ -158,6 +182,7 @@ def step (st : St) : Op → Option St
                                         cleanupPending := true },
       act := if ms.active then st.act.filter (fun x => x != m) else st.act,
       bus := st.bus.filter (fun e => !(ownedBy m e && e.cls == .cfg)),
+      fx := st.fx.filter (fun e => !ownedBy m e),
       log := st.log ++ [(m, .pd)] }
   | .stoppedCb m =>
     let ms := st.modes m
@@ -170,6 +195,23 @@ def step (st : St) : Op → Option St
     if (st.modes m).starting then some { st with bus := st.bus ++ [⟨m, .turn, 0⟩] } else none
   | .fireDl m id =>
     if st.dl.contains ⟨m, .own, id⟩ then some { st with dl := st.dl.filter (fun e => e != ⟨m, .own, id⟩) } else none
+  | .cfgPlay m id =>
+    -- `if not mode.active: return`; a second play of the same entry replaces what the first recorded
+    if (st.modes m).active && decide (id < 100) && !st.fx.contains ⟨m, .cfg, id⟩ then
+      some { st with fx := st.fx ++ [⟨m, .cfg, id⟩] }
+    else some st
+  | .cfgSub m id on =>
+    -- subscriptions are made in `start()` (`mode_start` of the player: the entry is evaluated and played at once, while the
+    -- mode is still starting) and cancelled by `unload_player_events` in `_stopped`
+    if !up (st.modes m) then none
+    else if decide (id ≥ 100) then some st
+    else if on then (if st.fx.contains ⟨m, .cfg, id⟩ then some st else some { st with fx := st.fx ++ [⟨m, .cfg, id⟩] })
+    else some { st with fx := st.fx.filter (fun e => e != ⟨m, .cfg, id⟩) }
+  | .addTm m id =>
+    if alive (st.modes m) then some { st with tm := st.tm ++ [⟨m, .dev, id⟩] } else none
+  | .fireTm m id =>
+    if st.tm.contains ⟨m, .dev, id⟩ then some { st with tm := st.tm.filter (fun e => e != ⟨m, .dev, id⟩) } else none
+  | .remTm m id => some { st with tm := st.tm.filter (fun e => e != ⟨m, .dev, id⟩) }
 
 /-- a schedule; steps that are not enabled are skipped -/
 def run (st : St) : List Op → St
@@ -208,7 +250,10 @@ def showMode (st : St) (m : Nat) : String :=
 
 def showState (d : DState) : String :=
   " ".intercalate ((d.cfgs.map (·.1)).reverse.map (showMode d.st)) ++ " | act=" ++
-    ",".intercalate (d.st.act.map toString) ++ " | sw=" ++ showIds d.st.sw ++ " | dl=" ++ showIds d.st.dl
+    ",".intercalate (d.st.act.map toString) ++ " | sw=" ++ showIds d.st.sw ++ " | dl=" ++ showIds d.st.dl ++
+    " | fx=" ++ showIds (((d.cfgs.map (·.1)).reverse.map (fun m =>
+      ((List.range 200).filter (fun i => d.st.fx.contains ⟨m, .cfg, i⟩)).map (fun i => (⟨m, .cfg, i⟩ : Ent)))).flatten) ++
+    " | tm=" ++ showIds d.st.tm
 
 def answer (d : DState) (r : Option St) (quiet : Bool) : DState × String :=
   match r with
@@ -255,8 +300,19 @@ def driverStep (d : DState) (line : String) : DState × String :=
       else if op = "addsw" then answer d (step d.st (.addSw m' i)) true
       else if op = "adddl" then answer d (step d.st (.addDl m' i)) true
       else if op = "firedl" then answer d (step d.st (.fireDl m' i)) true
+      else if op = "addtm" then answer d (step d.st (.addTm m' i)) true
+      else if op = "firetm" then answer d (step d.st (.fireTm m' i)) true
+      else if op = "remtm" then answer d (step d.st (.remTm m' i)) true
+      else if op = "cfgplay" then
+        match step d.st (.cfgPlay m' i) with
+        | none => (d, "not-enabled")
+        | some st' => ({ d with st := st' }, if (d.st.modes m').active then "played" else "skipped")
       else (d, "bad-op")
     | _, _ => (d, "bad-op")
+  | ["cfgsub", m, id, v] =>
+    match m.toNat?, id.toNat?, parseBool v with
+    | some m', some i, some v' => answer d (step d.st (.cfgSub m' i v')) true
+    | _, _, _ => (d, "bad-op")
   | ["state"] => (d, showState d)
   | _ => (d, "bad-op")
 
